@@ -8,7 +8,13 @@ through the block model.
 `sparse` cases (tables of 8–64 Mbit with a handful of bits, compression ratios above 1000:1): for
 `count`, `spd` and `sp <route> <level>` the model column is `-` and the spec column is the reference
 digest computed from the request lines alone (`Sparse`: `h mod size` positions, the khmer layout
-of their bytes) — nothing of the size of a table is ever built. -/
+of their bytes) — nothing of the size of a table is ever built.
+
+`dense` cases (1–3 tables of 256 KiB – 4 MiB filled with a seeded pseudo-random pattern, i.e.
+incompressible): for `dd`, `dn <writer> <loader>` and `count` the model column is `-` and the spec
+column is the reference digest computed from the case line (`Dense`: the same word generator as
+the harness, the khmer layout of those words, plus the words changed by later `count`s); the table
+is streamed word by word through the accumulators, never stored. -/
 open Driver
 
 /-- spec-level state: k, occupied, per table (size, bitmap) -/
@@ -26,10 +32,23 @@ structure Sparse where
   occ : Nat
   tables : List (Nat × List Nat)
 
+/-- reference state of the `dense` cases: the parameters of the seeded pattern (word `w` of table
+    `t` is `Dense.genWord`), the words changed since (`over`: table, word index, value) and the
+    digest of this state once it has been computed -/
+structure Dense where
+  k : Nat
+  occ : Nat
+  seed : UInt64
+  d : Nat
+  sizes : List Nat
+  over : List (Nat × Nat × UInt64) := []
+  cache : Option String := none
+
 structure St where
   g : Option NG.G := none
   s : Option SpecG := none
   sp : Option Sparse := none
+  dn : Option Dense := none
 
 def bytesToU8 (l : List Nat) : List UInt8 := l.map UInt8.ofNat
 def u8ToBytes (l : List UInt8) : List Nat := l.map UInt8.toNat
@@ -127,6 +146,139 @@ def Sparse.digest (s : Sparse) : String :=
   ";".intercalate (s.tables.map (fun t => s!"{t.1}:{t.2.length}:{showNats t.2}")) ++
   s!" len={len} nz=" ++ ",".intercalate (nz.map (fun e => s!"{e.1}:{hex2 e.2}"))
 
+/-! ### large dense tables: the seeded pattern and its reference digest -/
+
+namespace Dense
+
+def GAMMA : UInt64 := 0x9E3779B97F4A7C15
+
+/-- splitmix64 finaliser -/
+def mix (z : UInt64) : UInt64 :=
+  let z := (z ^^^ (z >>> 30)) * 0xBF58476D1CE4E5B9
+  let z := (z ^^^ (z >>> 27)) * 0x94D049BB133111EB
+  z ^^^ (z >>> 31)
+
+def base (seed : UInt64) (t : Nat) : UInt64 := mix (seed + (UInt64.ofNat t + 1) * GAMMA)
+
+/-- word `w` of the pattern of a table of `size` bits (bit b of the table = bit b % 64 of word b / 64);
+    d = 25: about every fourth bit, d = 75: three of four, otherwise every second; bits ≥ size cleared -/
+def genWord (b : UInt64) (d size w : Nat) : UInt64 :=
+  let a := mix (b + (UInt64.ofNat w + 1) * GAMMA)
+  let v := if d == 25 then a &&& mix a else if d == 75 then a ||| mix a else a
+  if 64 * (w + 1) ≤ size then v else v &&& (((1 : UInt64) <<< UInt64.ofNat (size % 64)) - 1)
+
+def popcnt (x : UInt64) : UInt64 :=
+  let x : UInt64 := x - ((x >>> 1) &&& 0x5555555555555555)
+  let m3 : UInt64 := 0x3333333333333333
+  let x : UInt64 := (x &&& m3) + ((x >>> 2) &&& m3)
+  let x : UInt64 := (x + (x >>> 4)) &&& 0x0f0f0f0f0f0f0f0f
+  (x * 0x0101010101010101) >>> 56
+
+@[inline] def fnvByte (h b : UInt64) : UInt64 := (h ^^^ (b &&& 0xff)) * 0x100000001b3
+
+/-- FNV-1a over the `n` low bytes of `v`, little endian -/
+def fnvLE (h v : UInt64) (n : Nat) : UInt64 :=
+  (List.range n).foldl (fun h i => fnvByte h (v >>> UInt64.ofNat (8 * i))) h
+
+def fnv8 (h v : UInt64) : UInt64 :=
+  let h := fnvByte h v
+  let h := fnvByte h (v >>> 8)
+  let h := fnvByte h (v >>> 16)
+  let h := fnvByte h (v >>> 24)
+  let h := fnvByte h (v >>> 32)
+  let h := fnvByte h (v >>> 40)
+  let h := fnvByte h (v >>> 48)
+  fnvByte h (v >>> 56)
+
+def hex16 (v : UInt64) : String :=
+  String.ofList ((List.range 16).map (fun i => hexDigit ((v >>> UInt64.ofNat (4 * (15 - i))) &&& 0xf).toNat))
+
+/-- the current value of word `w` of a table: a changed word, or the pattern -/
+@[inline] def wordOf (overT : List (Nat × UInt64)) (b : UInt64) (d size w : Nat) : UInt64 :=
+  if overT.isEmpty then genWord b d size w else
+  match overT.find? (·.1 == w) with
+  | some e => e.2
+  | none => genWord b d size w
+
+structure Acc where
+  pop : UInt64
+  x : UInt64
+  sm : UInt64
+  h : UInt64
+  deriving Inhabited
+
+/-- stream the words of one table: popcount, xor of word·(2w+1), sum of mix(word xor w·GAMMA), and
+    the FNV-1a state over the table's `nbytes = size/8+1` data bytes (khmer layout: byte i holds
+    bits 8i..8i+7, i.e. the little-endian bytes of the words) -/
+partial def tableLoop (overT : List (Nat × UInt64)) (b : UInt64) (d size nwords nbytes : Nat)
+    (w : Nat) (pop x sm h : UInt64) : Acc :=
+  if w ≥ nwords then { pop, x, sm, h } else
+  let word := wordOf overT b d size w
+  let left := nbytes - 8 * w
+  let h := if left ≥ 8 then fnv8 h word else fnvLE h word left
+  let wu := UInt64.ofNat w
+  tableLoop overT b d size nwords nbytes (w + 1)
+    (pop + popcnt word) (x ^^^ (word * (2 * wu + 1))) (sm + mix (word ^^^ (wu * GAMMA))) h
+
+def fnvList (h : UInt64) (l : List Nat) : UInt64 := l.foldl (fun h b => fnvByte h (UInt64.ofNat b)) h
+
+def leBytes (v n : Nat) : List Nat := (List.range n).map (fun i => v / 256 ^ i % 256)
+
+end Dense
+
+/-- digest of the reference state: per table size, popcount and the two word hashes; length and
+    FNV-1a of the khmer file ("OXLI" 4 2, k u32 LE, table count u8, occupied u64 LE, then per table
+    the size u64 LE and size/8+1 data bytes) -/
+def Dense.digest (s : Dense) : String := Id.run do
+  let mut h : UInt64 := 0xcbf29ce484222325
+  h := Dense.fnvList h ([0x4f, 0x58, 0x4c, 0x49, 4, 2] ++ Dense.leBytes s.k 4 ++ [s.sizes.length % 256] ++ Dense.leBytes s.occ 8)
+  let mut len := 19
+  let mut ts : Array String := #[]
+  let mut t := 0
+  for size in s.sizes do
+    h := Dense.fnvList h (Dense.leBytes size 8)
+    let nwords := (size + 63) / 64
+    let nbytes := size / 8 + 1
+    let overT := (s.over.filter (·.1 == t)).map (·.2)
+    let a := Dense.tableLoop overT (Dense.base s.seed t) s.d size nwords nbytes 0 0 0 0 h
+    h := a.h
+    -- size a multiple of 64: one more (zero) byte after the last word
+    h := Dense.fnvList h (List.replicate (nbytes - 8 * nwords) 0)
+    ts := ts.push s!"{size}:{a.pop.toNat}:{Dense.hex16 a.x}:{Dense.hex16 a.sm}"
+    len := len + 8 + nbytes
+    t := t + 1
+  return s!"k={s.k} occ={s.occ} n={s.sizes.length} t=" ++ ";".intercalate ts.toList ++
+    s!" len={len} fh={Dense.hex16 h}"
+
+/-- the digest, computed once per state -/
+def Dense.cached (s : Dense) : Dense × String :=
+  match s.cache with
+  | some c => (s, c)
+  | none => let c := s.digest; ({ s with cache := some c }, c)
+
+/-- `count h`: bit `h mod size` of every table; 1 iff some table did not have it; `occupied` counts
+    the new bits of the first table -/
+def Dense.count (s : Dense) (h : Nat) : Dense × Bool := Id.run do
+  let mut over := s.over
+  let mut isNew := false
+  let mut occ := s.occ
+  let mut t := 0
+  for size in s.sizes do
+    let pos := h % size
+    let w := pos / 64
+    let overT := (over.filter (·.1 == t)).map (·.2)
+    let cur := Dense.wordOf overT (Dense.base s.seed t) s.d size w
+    let bit : UInt64 := (1 : UInt64) <<< UInt64.ofNat (pos % 64)
+    if cur &&& bit == 0 then
+      isNew := true
+      if t == 0 then occ := occ + 1
+      over := (t, w, cur ||| bit) :: over.filter (fun e => !(e.1 == t && e.2.1 == w))
+    t := t + 1
+  return ({ s with over := over, occ := occ, cache := none }, isNew)
+
+def lengthOfWriter (wr : String) : Bool := wr.startsWith "buf0" || wr == "file" || wr == "fbuf" ||
+  (wr.startsWith "w")
+
 def saveHex (g : NG.G) : String :=
   match g.save with
   | none => "PANIC"
@@ -141,7 +293,26 @@ def stepC16 (st : St) (ws : List String) : St × Resp :=
      { model := "ok" })
   | ["case", _, "sparse", k, sizes] =>
     ({ sp := some { k := k.toNat!, occ := 0, tables := (natList sizes).map (fun n => (n, [])) } }, { model := "ok" })
+  | ["case", _, "dense", k, occ, seed, d, sizes] =>
+    ({ dn := some { k := k.toNat!, occ := occ.toNat!, seed := UInt64.ofNat seed.toNat!, d := d.toNat!,
+                    sizes := natList sizes } }, { model := "-", spec := "ok" })
   | "case" :: _ => ({}, { model := "ok" })
+  -- large dense tables: like the sparse ones, the block-list model is not run; the spec column is
+  -- the reference digest of the seeded pattern
+  | ["dd"] =>
+    match st.dn with
+    | some s => let (s', c) := s.cached; ({ st with dn := some s' }, { model := "-", spec := c })
+    | none => (st, { model := "nograph" })
+  | ["dn", wr, _loader] =>
+    -- every writer and every loader must give back the same graph; a plain writer receives exactly
+    -- the bytes of the khmer file
+    match st.dn with
+    | some s =>
+      let (s', c) := s.cached
+      let wl := if lengthOfWriter wr then
+          (((c.splitOn " len=").getD 1 "").splitOn " ").getD 0 "" else "gz"
+      ({ st with dn := some s' }, { model := "-", spec := c ++ " same=true wl=" ++ wl })
+    | none => (st, { model := "nograph" })
   -- huge sparse tables: the block-list model is not run (a 64 Mbit table is 2 M list cells per
   -- table and 8 MB of byte list per save); the spec column is the reference digest computed from
   -- the request lines, the model column stays `-`
@@ -155,6 +326,11 @@ def stepC16 (st : St) (ws : List String) : St × Resp :=
     | some s => (st, { model := "-", spec := s.digest ++ " same=true" })
     | none => (st, { model := "nograph" })
   | ["count", h] =>
+    match st.dn with
+    | some s =>
+      let (s', r) := s.count h.toNat!
+      ({ st with dn := some s' }, { model := "-", spec := if r then "1" else "0" })
+    | none =>
     match st.sp with
     | some s =>
       let (s', r) := s.count h.toNat!
